@@ -223,6 +223,20 @@ pub fn one_history(rng: &mut Rng, sink: &mut Sink, n_ops: usize, allow_cons_off:
         };
         build_ops(&mut s, sink, &t);
     }
+    if rng.chance(1, 2) {
+        // a mixed-content element: text, element, text, comment, text …
+        let mut kids = vec![];
+        for i in 0..(3 + rng.below(4)) {
+            if i % 2 == 0 {
+                kids.push(GTree::leaf(GValue::Text(format!("t{}", i))));
+            } else if rng.chance(2, 3) {
+                kids.push(GTree::new(GValue::Element(*rng.pick(&[2usize, 3])), vec![]));
+            } else {
+                kids.push(GTree::leaf(GValue::Comment("c".into())));
+            }
+        }
+        build_ops(&mut s, sink, &GTree::new(GValue::Element(4), kids));
+    }
     for _ in 0..n_ops {
         let live = s.live();
         if live.is_empty() {
@@ -235,7 +249,24 @@ pub fn one_history(rng: &mut Rng, sink: &mut Sink, n_ops: usize, allow_cons_off:
         let texts: Vec<usize> = live.iter().copied().filter(|&l| s.xot.is_text(s.nodes[l])).collect();
         let e = if elems.is_empty() || rng.chance(1, 8) { a } else { *rng.pick(&elems) };
         // bias the moved node towards text nodes: merges are the interesting part
-        let b = if !texts.is_empty() && rng.chance(1, 3) { *rng.pick(&texts) } else { b };
+        let mut b = if !texts.is_empty() && rng.chance(1, 3) { *rng.pick(&texts) } else { b };
+        // … and towards nodes sitting between two text nodes: moving them away must merge the two
+        let between: Vec<usize> = live
+            .iter()
+            .copied()
+            .filter(|&l| {
+                let n = s.nodes[l];
+                match (s.xot.previous_sibling(n), s.xot.next_sibling(n)) {
+                    (Some(p), Some(q)) => s.xot.is_text(p) && s.xot.is_text(q),
+                    _ => false,
+                }
+            })
+            .collect();
+        let mut op = op;
+        if op != "cons" && !between.is_empty() && rng.chance(1, 3) {
+            b = *rng.pick(&between);
+            op = *rng.pick(&["append", "prepend", "insert_after", "insert_before", "replace"]);
+        }
         let (req, x, y): (String, usize, usize) = match op {
             "append" | "prepend" | "any_append" => {
                 let p = if rng.chance(3, 4) { e } else { a };
